@@ -188,6 +188,24 @@ theorem manifest_write_atomic (thin nofetch : Bool) (fs : Fs) (dir text : Str) (
       rw [hops]
       exact ⟨hp.1, hp.2, fun _ => hf⟩
 
+/-- **a failing write keeps the old Manifest**: if the write is aborted by an error or an exception after any
+amount of text reached the temp file, the Manifest and every other file are unchanged at every step of the
+clean-up, and the temp file is removed. -/
+theorem manifest_failed_write_keeps_old (fs : Fs) (dir : Str) (written : List Str) (k : Nat) :
+    (∀ q, q ≠ tmpName dir (tag "Manifest") → (run ((abortWriteOps dir written).take k) fs).read q = fs.read q) ∧
+    (run (abortWriteOps dir written) fs).read (tmpName dir (tag "Manifest")) = none := by
+  have hun : ∀ q, q ≠ tmpName dir (tag "Manifest") → ∀ op ∈ abortWriteOps dir written, touches op q = false := by
+    intro q hq op hop
+    have hne : (tmpName dir (tag "Manifest") == q) = false := by simpa using fun e => hq e.symm
+    simp only [abortWriteOps, List.mem_append, List.mem_cons, List.mem_map, List.not_mem_nil, or_false] at hop
+    rcases hop with (rfl | ⟨d, _, rfl⟩) | rfl | rfl <;> simp [touches, hne]
+  refine ⟨fun q hq => run_untouched _ fs q (fun op hop => hun q hq op (List.mem_of_mem_take hop)), ?_⟩
+  have e : abortWriteOps dir written = ([FsOp.creat (tmpName dir (tag "Manifest"))]
+      ++ written.map (.write (tmpName dir (tag "Manifest"))) ++ [.close (tmpName dir (tag "Manifest"))])
+      ++ [.unlink (tmpName dir (tag "Manifest"))] := by simp [abortWriteOps]
+  rw [e, run_append, run_single]
+  simp [step, read_del]
+
 /-- **idempotence**: after a completed `update`, regenerating from the same package (listing and
 fetchables in any order) performs no file operation at all. -/
 theorem manifest_idempotent (thin : Bool) (scan scan' : List ScanObj) (fetch fetch' : List Fetchable)
